@@ -109,7 +109,10 @@ contract(
     ensures=(_corr_facts("n_nodes(target_graph)", _OFF, "result") + _node_facts("n_nodes(target_graph)", _OFF, _FOFF)
              + _edge_facts("n_edges(target_graph)", _OFF)
              + ["forall_int(lambda n: implies(has_node(target_graph, n), n in result and has_node(source_graph, result[n]) and "
-                "result[n] == " + _OFF + " + 1 + node_index(target_graph, n)))"]),
+                "result[n] == " + _OFF + " + 1 + node_index(target_graph, n)))",
+                # the same copy facts addressed by template node instead of by position (what callers need)
+                "forall_int(lambda n: implies(has_node(target_graph, n), same_attr(source_graph, result[n], target_graph, n, 'bonding') and "
+                "same_attr(source_graph, result[n], target_graph, n, 'element') and same_attr(source_graph, result[n], target_graph, n, 'fragname')))"]),
     modifies=["source_graph"],
     loops={
         0: Loop(over='enumerate(target_graph.nodes(), start=offset + 1)',
@@ -128,4 +131,64 @@ contract(
                         "has_edge(target_graph, node1, node2)"]),
     },
     examples=_ex_merge,
+)
+
+
+# ---------------------------------------------------------------------------------------------- set_atom_names_atomistic
+# (resolver form: the fragments are taken from the coarse graph's per-node fragment graphs)
+_FGK = "attr(meta_graph, k, 'graph')"
+_NAMED = ("all(has_attr({g}, nodes({g})[i], 'atomname') and attr({g}, nodes({g})[i], 'atomname') == "
+          "attr(molecule, nodes({g})[i], 'element') + str(i) for i in range({upto}))")
+
+
+def _ex_names():
+    import logging
+    logging.getLogger('pysmiles').setLevel(logging.ERROR)
+    from cgsmiles.resolve import MoleculeResolver
+    import networkx as nx
+    for s in ["{[#A][#B]}.{#A=CC[$],#B=[$]O}", "{[#V].[#A][#B]}.{#A=CC[$],#B=[$]O}", "{[#A]|3}.{#A=[$]CC[$]}",
+              "{[#A][#B]}.{#A=CC[!],#B=[!]CO}", "{[#A]}.{#A=c1ccccc1}"]:
+        coarse, fine = MoleculeResolver.from_string(s).resolve()
+        for n in fine.nodes:
+            fine.nodes[n].pop('atomname', None)
+        for k in coarse.nodes:
+            if 'graph' in coarse.nodes[k]:
+                for n in coarse.nodes[k]['graph'].nodes:
+                    coarse.nodes[k]['graph'].nodes[n].pop('atomname', None)
+        yield {'molecule': fine, 'meta_graph': coarse}
+
+
+contract(
+    target='cgsmiles.graph_utils:set_atom_names_atomistic', variant='resolver', serves=['C12'],
+    types={'molecule': 'Graph:mol', 'meta_graph': 'Graph:mol'}, returns=None,
+    locals={'fraglist': 'DefaultDict[Int,List[Int]]'},
+    requires=[
+        "n_nodes(meta_graph) > 0 and meta_graph != molecule",
+        "all(" + _FGK + " != molecule and " + _FGK + " != meta_graph and "
+        "all(has_node(molecule, n) and has_attr(molecule, n, 'element') for n in nodes(" + _FGK + ")) "
+        "for k in nodes(meta_graph) if has_attr(meta_graph, k, 'graph'))",
+        "all(implies(" + _FGK.replace('k,', 'a,') + " == " + _FGK.replace('k,', 'b,') + ", a == b) "
+        "for a in nodes(meta_graph) if has_attr(meta_graph, a, 'graph') for b in nodes(meta_graph) if has_attr(meta_graph, b, 'graph'))",
+    ],
+    ensures=[
+        # within every coarse node the i-th atom is named element + i (hence unique within the coarse node)
+        "all(" + _NAMED.format(g=_FGK, upto="n_nodes(" + _FGK + ")") + " for k in nodes(meta_graph) if has_attr(meta_graph, k, 'graph'))",
+    ],
+    modifies=["molecule:attr:atomname", "graphs_of(meta_graph):attr:atomname"],
+    loops={
+        0: Loop(over='meta_graph.nodes', invariant=[
+            "all((k in fraglist) == (has_attr(meta_graph, k, 'graph') and n_nodes(" + _FGK + ") > 0 and node_index(meta_graph, k) < _i0) for k in nodes(meta_graph))",
+            "all(has_node(meta_graph, k) and has_attr(meta_graph, k, 'graph') and len(fraglist[k]) == n_nodes(" + _FGK + ") and "
+            "all(fraglist[k][i] == nodes(" + _FGK + ")[i] for i in range(n_nodes(" + _FGK + "))) for k in keys(fraglist))",
+        ]),
+        2: Loop(over='fraglist.items()', invariant=[
+            "all(" + _NAMED.format(g=_FGK, upto="n_nodes(" + _FGK + ")") + " for k in keys(fraglist) if key_index(fraglist, k) < _i2)",
+        ]),
+        3: Loop(over='enumerate(fragnodes)', invariant=[
+            "all(" + _NAMED.format(g=_FGK, upto="n_nodes(" + _FGK + ")") + " for k in keys(fraglist) if key_index(fraglist, k) < _i2)",
+            _NAMED.format(g="attr(meta_graph, meta_node, 'graph')", upto="_i3"),
+        ]),
+    },
+    wf_all_graphs=True,
+    examples=_ex_names,
 )
